@@ -18,6 +18,7 @@ import (
 	"bytes"
 	"encoding/binary"
 	"fmt"
+	"math"
 	"runtime"
 	"strings"
 	"time"
@@ -585,6 +586,11 @@ func (se *SessionExecutor) handleStmtPrepare(sql string) (*Stmt, error) {
 	if err != nil {
 		log.Warn("prepare calc params failed, namespace: %s, sql: %s", se.GetNamespace().GetName(), sql)
 		return nil, err
+	}
+
+	// num_params of COM_STMT_PREPARE_OK is a 2-byte field; MySQL refuses such statements too
+	if paramCount > math.MaxUint16 {
+		return nil, mysql.NewDefaultError(mysql.ErrPsManyParam)
 	}
 
 	stmt.sqlItems = sqlItems
